@@ -23,7 +23,8 @@ inductive Atom
   | null
   | num (n : Int)
   | bool (b : Bool)
-  | str (s : List Char)          -- unquoted identifier
+  | str (s : List Char)          -- unquoted string / identifier (may be empty: `unquote("")`)
+  | qstr (s : List Char)         -- quoted string
 deriving Repr, DecidableEq, Inhabited
 
 /-- Values (`css::Value`) of the fragment.  Lists, maps and argument lists hold scalars
@@ -34,12 +35,15 @@ inductive V
   | list (xs : List Atom) (comma : Bool)
   | map (kv : List (List Char × Atom))
   | arglist (pos : List Atom) (named : List (Name × Atom))
+  | blist (xs : List Atom) (comma : Bool)      -- bracketed list `[…]`
 deriving Repr, DecidableEq, Inhabited
 
 def V.null : V := .atom .null
 def V.num (n : Int) : V := .atom (.num n)
 
-/-- `Value::is_null` as used by `!default` (`Some(Value::Null) | None`). -/
+/-- What `!default` tests (`Some(Value::Null) | None` in `Scope::set_variable`): the value is
+*exactly* `null`.  This is deliberately not `css::Value::is_null()`, which is also true for
+`()`, for lists of nulls and for the empty unquoted string — those are defined values. -/
 def V.isNull : V → Bool
   | .atom .null => true
   | _ => false
@@ -56,6 +60,7 @@ def V.isTrue : V → Bool
 def V.items : V → List V
   | .list xs _ => xs.map V.atom
   | .arglist pos _ => pos.map V.atom
+  | .blist xs _ => xs.map V.atom
   | v => [v]
 
 inductive ArgKind
@@ -70,6 +75,8 @@ inductive Expr
   | num (n : Int)
   | bool (b : Bool)
   | ident (s : List Char)
+  | qstr (s : List Char)
+  | blist (xs : List Expr) (comma : Bool)
   | var (x : Name)
   | add (a b : Expr)
   | lt (a b : Expr)
@@ -120,6 +127,7 @@ def Atom.show : Atom → List Char
   | .bool true => "true".toList
   | .bool false => "false".toList
   | .str s => s
+  | .qstr s => ['"'] ++ s ++ ['"']
 
 def joinWith (sep : List Char) : List (List Char) → List Char
   | [] => []
@@ -138,6 +146,10 @@ def V.inspect : V → List Char
   | .atom a => a.show
   | .list xs c => inspectList xs c
   | .arglist pos _ => inspectList pos true
+  | .blist xs c => ['['] ++ (match xs with
+      | [] => []
+      | [x] => if c then x.show ++ [','] else x.show
+      | _ => joinWith (if c then ", ".toList else " ".toList) (xs.map Atom.show)) ++ [']']
   | .map [] => "()".toList
   | .map kv => "(".toList ++ joinWith ", ".toList (kv.map fun (k, v) => k ++ ": ".toList ++ v.show) ++ ")".toList
 
